@@ -65,9 +65,12 @@ type Walker struct {
 	floor    map[types.Object]int     // version numbers already used in dead branches
 	boolDefs map[types.Object]boolDef // boolean locals defined from a condition: b := x == nil || y.Empty()
 
-	cur    uint64 // set of path states at the current program point
-	quiet  int    // >0 while re-walking a loop body for the state fixpoint
-	frames []*loopFrame
+	cur         uint64 // set of path states at the current program point
+	quiet       int    // >0 while re-walking a loop body for the state fixpoint
+	frames      []*loopFrame
+	Inline      bool                    // translate calls of one-line boolean helpers through InlineHook (opt-in per rule)
+	subst       map[types.Object]string // parameter -> rendered argument while a boolean helper is inlined
+	inlineDepth int
 }
 
 type boolDef struct {
@@ -151,6 +154,11 @@ func (w *Walker) Path(e ast.Expr) string {
 		return ""
 	case *ast.Ident:
 		o := w.Info.ObjectOf(x)
+		if o != nil && w.subst != nil {
+			if s, ok := w.subst[o]; ok {
+				return s
+			}
+		}
 		if o != nil && w.isLocal(o) {
 			return fmt.Sprintf("%s#%d", x.Name, w.ver[o])
 		}
@@ -329,10 +337,24 @@ func flipOp(op token.Token) token.Token {
 	return op
 }
 
+// InlineBody describes a pure boolean helper `func f(p1, ..., pn) bool { return Expr }`.
+type InlineBody struct {
+	Expr   ast.Expr
+	Params []*types.Var
+	Recv   *types.Var
+	Info   *types.Info
+}
+
+// InlineHook, when set, resolves a call to a one-line boolean helper of the
+// analysed module; Cond then translates the helper's expression with the
+// arguments substituted, so that a condition moved into a helper yields the
+// same atoms as the condition written in place.
+var InlineHook func(info *types.Info, call *ast.CallExpr) *InlineBody
+
 // Cond translates a boolean expression into a formula.
 func (w *Walker) Cond(e ast.Expr) Formula {
 	e = ast.Unparen(e)
-	if w.Atomize != nil {
+	if w.Atomize != nil && w.inlineDepth == 0 {
 		if f := w.Atomize(w, e); f != nil {
 			return f
 		}
@@ -368,7 +390,29 @@ func (w *Walker) Cond(e ast.Expr) Formula {
 			}
 		}
 		return Atom("b:" + w.Path(e))
-	case *ast.SelectorExpr, *ast.CallExpr, *ast.IndexExpr, *ast.StarExpr:
+	case *ast.CallExpr:
+		if w.Inline && InlineHook != nil && w.inlineDepth < 2 {
+			if ib := InlineHook(w.Info, x); ib != nil && len(ib.Params) == len(x.Args) {
+				sub := map[types.Object]string{}
+				for i, p := range ib.Params {
+					sub[p] = w.Path(x.Args[i])
+				}
+				if ib.Recv != nil {
+					if se, ok := ast.Unparen(x.Fun).(*ast.SelectorExpr); ok {
+						sub[ib.Recv] = w.Path(se.X)
+					}
+				}
+				oldInfo, oldSub := w.Info, w.subst
+				w.Info, w.subst = ib.Info, sub
+				w.inlineDepth++
+				f := w.Cond(ib.Expr)
+				w.inlineDepth--
+				w.Info, w.subst = oldInfo, oldSub
+				return f
+			}
+		}
+		return Atom("b:" + w.Path(e))
+	case *ast.SelectorExpr, *ast.IndexExpr, *ast.StarExpr:
 		return Atom("b:" + w.Path(e))
 	}
 	return w.fresh()
